@@ -18,6 +18,10 @@ type Params struct {
 	NoScrib bool           `json:"no_scribble,omitempty"`
 	Sched   *simrt.Sched   `json:"sched,omitempty"`
 	Extra   map[string]int `json:"extra,omitempty"`
+	// Batch identifies the position of the run in its worker process (base seed, first index,
+	// stride, position): a data race report can depend on what ran before in the process, so
+	// its replay re-executes the same worker up to this run.
+	Batch []uint64 `json:"batch,omitempty"`
 }
 
 // Result is what one run reports.
@@ -74,7 +78,7 @@ var Owns = map[string][]string{
 	"C03": {"unique"},
 	"C04": {"reopen", "layout"},
 	"C05": {"crash"},
-	"C06": {"reject", "iofault"},
+	"C06": {"reject", "iofault", "batch"},
 	"C07": {"batch"},
 	"C08": {"linear", "race"},
 	"C09": {"deadlock"},
@@ -130,6 +134,7 @@ func RunSeq(p Params) *Result {
 		}
 	}
 	s := NewSeq(w, cfg, prof, pools, kept)
+	s.NoReopen = p.Extra["noreopen"] == 1
 	cfg0 := *cfg
 	s.Run()
 	res := &Result{Params: p, V: s.V, Digest: w.Digest(), Class: cfg0.Class(), Steps: w.Steps,
@@ -180,6 +185,21 @@ func Run(p Params) *Result {
 				r.V.Sig = "alias:" + r.V.Sig
 				r.V.Tag = "alias"
 				r.V.Msg = "only when the caller mutates objects it passed in or got back: " + r.V.Msg
+			}
+		}
+		// C04: a divergence (of any oracle) that disappears when the restarts
+		// are taken out of the history is a restart violation
+		if p.Prop == "C04" && r.V != nil && !OwnsTag("C04", r.V.Tag) && r.V.Tag != "panic" && p.Extra["noreopen"] == 0 {
+			q := p
+			q.Extra = map[string]int{"noreopen": 1}
+			for k, v := range p.Extra {
+				q.Extra[k] = v
+			}
+			q.Extra["noreopen"] = 1
+			if r2 := RunSeq(q); r2.V == nil {
+				r.V.Sig = "reopen:" + r.V.Sig
+				r.V.Tag = "reopen"
+				r.V.Msg = "only when the history contains a close/reopen or abandon: " + r.V.Msg
 			}
 		}
 	case "crash":
